@@ -278,6 +278,13 @@ where
     for entry in &proof.non_primitives {
         air_public_counts.push(entry.public_values.len());
     }
+    if proof.proof.opened_values.instances.len() != air_public_counts.len() {
+        return Err(VerificationError::InvalidProofShape(format!(
+            "instance count mismatch: expected {} tables, the proof opens {}",
+            air_public_counts.len(),
+            proof.proof.opened_values.instances.len()
+        )));
+    }
     let verifier_inputs = BatchStarkVerifierInputsBuilder::<SC, Comm, OpeningProof>::allocate(
         circuit,
         &proof.proof,
